@@ -8,10 +8,11 @@ CONSTANT Contents = {}
 CONSTANT Configs = {}
 CONSTANT Fails = {"ok", "fd", "fr"}
 CONSTANT FailKeys <- TKeys
-CONSTANT OpSet = {"Get", "GetActive", "Put", "Upsert", "Remove", "Peek"}
+CONSTANT OpSet = {"Get", "GetActive", "Put", "Upsert", "Remove", "Peek", "Inval"}
 CONSTANT FreePut = TRUE
 CONSTANT MaxOps = 1000000
 CONSTANT MaxSteps = 1000000
+CONSTANT MaxUpd = 1000000
 CONSTANT Pool = 12
 CONSTANT SeqPrefix = 1000000
 CONSTRAINT Progress
@@ -19,6 +20,7 @@ POSTCONDITION Accept
 CHECK_DEADLOCK FALSE
 SPECIFICATION PSpec
 INVARIANT Fresh
+INVARIANT FreshAfterInvalidate
 INVARIANT Bounded
 INVARIANT ItemsExact
 INVARIANT BytesExactND
